@@ -4,6 +4,7 @@ import SqlProofs.GroupLeaves
 import SqlProofs.GroupNonEmpty
 import SqlProofs.AccessorSpec
 import SqlProofs.Bookkeeping
+import SqlProofs.BookkeepingAbsScript
 /-!
 # C03 — grouping is purely structural and yields a well-formed token tree
 
@@ -64,5 +65,20 @@ example : BK.WF (BK.runOps (fun hx i => BK.strF hx 10 i) (BK.mkStatement [txt "a
 `Wildcard` and the leaf is `Operator` (an `Operator` token "re-typed" to `Operator` keeps its type) — all 25 passes, every input -/
 theorem only_wildcard_is_retyped : type_of% @Sql.retype_only_operator_wildcard := @Sql.retype_only_operator_wildcard
 theorem leaves_are_the_lexer_tokens_strict : type_of% @Sql.groupStatement_leaves_strict := @Sql.groupStatement_leaves_strict
+
+/-! ## the heap model refines the pure tree model (SqlProofs/BookkeepingAbs*.lean)
+
+`IsAbs tt h A`: `A i` is the pure tree of heap object `i` (leaves `tok (tt i) value`, groups `grp cls (kids.map A)`); it exists and is unique on a
+well-formed heap (`abstraction_exists_unique`).  One `group_tokens` call on the heap is the pure `Sql.groupTokens` on the child list of the
+receiver, leaves every object outside the path to the receiver unchanged, and changes the ancestors exactly by that replacement
+(`group_tokens_call_refines_pure`); a raising call raises the same error purely.  For ANY script of calls on the Statement the splitter built, the
+final heap is well-formed AND its abstraction is the pure tree obtained by running the same calls at the corresponding tree paths
+(`statement_history_refines_pure`).  Not proved: that each pure grouping pass IS such a script (needs a set-ttype operation for `group_operator`'s
+re-typing and one lemma per pass; tied by S-TREE + S-HEAP + the confinement check instead). -/
+theorem abstraction_exists_unique : type_of% @BK.WF.abs_unique := @BK.WF.abs_unique
+theorem group_tokens_call_refines_pure : type_of% @BK.groupTokens_abs := @BK.groupTokens_abs
+theorem group_tokens_error_refines_pure : type_of% @BK.groupTokens_abs_error := @BK.groupTokens_abs_error
+theorem history_refines_pure : type_of% @BK.runOps_abs := @BK.runOps_abs
+theorem statement_history_refines_pure : type_of% @BK.statement_history_abs := @BK.statement_history_abs
 
 end Sql.C03
